@@ -1,32 +1,72 @@
 #!/usr/bin/env python3
 """Run the repository's pinned test suite (BASELINE.json) and report which
-stable-pass tests did not pass.  Used before every fix: commit."""
-import json, os, subprocess, sys, tempfile
+stable-pass tests did not pass.
+
+    run_baseline.py                 # /repo itself, as pinned (serial)
+    run_baseline.py --dir WT -n 8   # a scratch worktree, with xdist
+
+Used before every fix: commit and to confirm that a seeded change still passes
+the existing suite."""
+import argparse, json, os, shutil, subprocess, sys, tempfile
 import xml.etree.ElementTree as ET
 
+ap = argparse.ArgumentParser()
+ap.add_argument('--dir', default='/repo')
+ap.add_argument('-n', type=int, default=0)
+a = ap.parse_args()
 b = json.load(open('/root/.vp/BASELINE.json'))
 out = tempfile.mkdtemp(prefix='cylc-verif-baseline-')
 junit = os.path.join(out, 'run.junit.xml')
-cmd = b['cmd'].replace('<file>', junit)
+cmd = b['cmd'].replace('<file>', junit).replace('cd /repo', f'cd {a.dir}')
+if a.n:
+    cmd += f' -n {a.n}'
 env = dict(os.environ)
 env.pop('CYLC_FLOW_VERIF', None)
+if a.dir != '/repo':
+    env['PYTHONPATH'] = a.dir
 log = os.path.join(out, 'pytest.log')
-with open(log, 'w') as lf:
-    subprocess.run(cmd, shell=True, env=env, stdout=lf, stderr=subprocess.STDOUT,
-                   stdin=subprocess.DEVNULL, timeout=3 * 3600)
-passed, failed = set(), set()
-for tc in ET.parse(junit).getroot().iter('testcase'):
-    tid = (tc.get('classname') or '') + '::' + (tc.get('name') or '')
-    if tc.find('failure') is not None or tc.find('error') is not None:
-        failed.add(tid)
-    elif tc.find('skipped') is None:
-        passed.add(tid)
-passed -= failed
+def run(cmd, junit, log):
+    with open(log, 'w') as lf:
+        subprocess.run(cmd, shell=True, env=env, stdout=lf,
+                       stderr=subprocess.STDOUT, stdin=subprocess.DEVNULL,
+                       timeout=3 * 3600)
+    passed, failed = set(), set()
+    for tc in ET.parse(junit).getroot().iter('testcase'):
+        tid = (tc.get('classname') or '') + '::' + (tc.get('name') or '')
+        if tc.find('failure') is not None or tc.find('error') is not None:
+            failed.add(tid)
+        elif tc.find('skipped') is None:
+            passed.add(tid)
+    return passed - failed, failed
+
+
+passed, failed = run(cmd, junit, log)
+missing = sorted(set(b['stable_pass']) - passed)
+if missing and a.n:
+    # timing-sensitive tests can fail under xdist load: re-run the files of
+    # the missing tests serially and merge
+    files = set()
+    for m in missing:
+        parts = m.split('::')[0].split('.')
+        while parts and not os.path.exists(
+                os.path.join(a.dir, *parts) + '.py'):
+            parts.pop()
+        if parts:
+            files.add(os.path.join(*parts) + '.py')
+    if files:
+        junit2 = os.path.join(out, 'rerun.junit.xml')
+        cmd2 = b['cmd'].replace('<file>', junit2).replace(
+            'cd /repo', f'cd {a.dir}') + ' ' + ' '.join(sorted(files))
+        p2, f2 = run(cmd2, junit2, os.path.join(out, 'rerun.log'))
+        print('re-ran serially:', sorted(files), 'passed', len(p2),
+              'failed', len(f2))
+        passed |= p2
+        failed = (failed - p2) | f2
 missing = sorted(set(b['stable_pass']) - passed)
 print('passed', len(passed), 'failed', len(failed), 'stable_pass missing',
       len(missing))
 for m in missing[:40]:
     print('  NOT PASSING:', m, '(failed)' if m in failed else '(absent)')
 print(open(log).read()[-600:])
-import shutil; shutil.rmtree(out, ignore_errors=True)
+shutil.rmtree(out, ignore_errors=True)
 sys.exit(1 if missing else 0)
